@@ -67,7 +67,7 @@ def choice_oracle(answers):
         ans = next(it)
         log.append({"a": numpy.asarray(a).tolist() if numpy.iterable(a) else int(a),
                     "size": size, "replace": replace})
-        return numpy.array(ans)
+        return numpy.array(ans, dtype=int)
     numpy.random.choice = fake
     try:
         yield log
